@@ -1188,6 +1188,7 @@ static VarioC genVario()
   c.angref = G::pick<double>({0., 30., 45.});
   c.bySample = G::pct(15) ? 1 : 0;
   if (c.calc == 5 || c.calc == 6) c.d.w.clear();
+  if (c.calc == 5) c.bySample = 0; // keeps the two known defects (stored mean, by-sample accumulation) under separate keys
   return c;
 }
 static std::unique_ptr<Vario> computeVario(const VarioC& c, Db* db, Ctx& ctx)
